@@ -12,7 +12,8 @@ META = {
 }
 
 RULES = ["pre158", "eip158", "cancun", "amsterdam"]
-TOUCHOPS = '{"BeginTx", "AddBalance", "SubBalance", "CreateAccount", "EvmCreate", "Snapshot", "Revert", "Finalise"}'
+LEANOPS = '{"BeginTx", "AddBalance", "SubBalance", "SetNonce", "SetState", "SelfDestruct", "CreateAccount", "EvmCreate", "Snapshot", "Revert", "Finalise"}'
+TOUCHOPS = '{"BeginTx", "AddBalance", "SubBalance", "SetState", "CreateAccount", "EvmCreate", "Snapshot", "Revert", "Finalise"}'
 ALLOPS = '{"BeginTx", "AddBalance", "SubBalance", "SetBalance", "SetNonce", "SetCode", "SetState", "SelfDestruct", "CreateAccount", "EvmCreate", "Snapshot", "Revert", "Finalise"}'
 
 
@@ -62,11 +63,13 @@ def run(ctx):
     if ctx.thorough:
         plans = [([r], [0, 2, 3], 0, None, 1, 0) for r in RULES] + [(["eip158"], [1, 3], 1, None, 1, 0), (["amsterdam"], [1, 2], 1, None, 1, 0)]
     else:
+        # one rule set per seed, its graph replayed completely: the guarded rule sets with all operations, the
+        # unguarded ones (much larger graphs) without SetBalance/SetCode but with an empty base account
         r = RULES[ctx.seed % 4]
-        plans = [([r], [0, 3] if r in ("pre158", "eip158") else [0, 2, 3], 0, None, 1, 4000)]
-    # the zero-value touch of 0x03 that survives reverts: small graph (touch-relevant operations, two nested
-    # snapshots, EIP-158 rule sets), always replayed completely
-    plans.append((RULES[1:] if ctx.thorough else [RULES[1 + ctx.seed % 3]], [0, 1, 2], 1, TOUCHOPS, 2, 0))
+        plans = [([r], [0, 1, 3], 0, LEANOPS, 1, 0) if r in ("pre158", "eip158") else ([r], [0, 2, 3], 0, None, 1, 0)]
+    # EIP-161 touch semantics incl. the zero-value touch of 0x03 that survives reverts: small graph (operations
+    # that may or may not touch, nested snapshots, empty base account, EIP-158 rule sets), replayed completely
+    plans.append((RULES[1:] if ctx.thorough else ["eip158", RULES[2 + ctx.seed % 2]], [0, 1, 2], 1, TOUCHOPS, ctx.pick(1, 2), 0))
     for i, (rules, bases, ripemd, ops, maxsnap, maxpaths) in enumerate(plans):
         cfg = edges_cfg(ctx, rules, bases, ripemd, "edges%d" % i, ops, maxsnap)
         res = ctx.model_check("state/MCStateDB", cfg, tags=("EDGE",), timeout=ctx.pick(1800, 3600),
